@@ -89,6 +89,16 @@ CLAIMED = {
             "middlewares (and one created afterwards) are observed; TLC requires the reference observation of the unchanged state.",
             "Trusted: TLC, fingerprints. Writers that modify the response AFTER the middleware returned are out of the property's scope and are not exercised.",
             "DESIGN.md 4.7, 7/C12"),
+    "C07": ("model_checking",
+            "TLC model checking of Middleware.tla (all interleavings, window history variable) + systematic schedule exploration of real goroutines through scheduler gates, each execution validated by TLC (TraceMiddleware.tla) + race-detector stress",
+            "Model level: Atomic / ConfigAtomic over every interleaving of 2 requests x 2 writers at critical-section granularity; twins (split snapshot, late "
+            "re-read of debug, split commit) rejected. Code level: the mutex of a scratch copy is instrumented at check time; the controller enumerates "
+            "the interleavings of gate-to-gate segments of real goroutines (mutex acquire/release, ResponseWriter.Header/WriteHeader/Write, handler "
+            "entry) and TLC validates every recorded execution: the response must be the reference response of ONE state of the request's window, "
+            "Config() the rendering of one. A free-running -race stress run covers the data-race clause.",
+            "Trusted: TLC, the controller (one logical thread at a time => event order = execution order), the textual mutex retyping, Go's race detector. "
+            "Interleavings inside a critical section are not schedulable.",
+            "DESIGN.md 4.7, 5.3, 6.2, 7/C07"),
 }
 
 NOT_YET = "check not built yet in this round (planned, see DESIGN.md section 7)"
